@@ -94,6 +94,46 @@ fn main() {
             Err(e) => fail(format!("f64 literal {:?} does not parse back: {}", lf, e)),
         }
     }
+    // special and boundary lexical forms: success only with the denoted value, never for a form outside the
+    // datatype's lexical space, never a wrapped-around value
+    let dbl = format!("{}double", xsd); let flt = format!("{}float", xsd); let dec = format!("{}decimal", xsd); let int = format!("{}integer", xsd);
+    let f_ok: &[(&str, f64)] = &[("INF", f64::INFINITY), ("-INF", f64::NEG_INFINITY), ("+INF", f64::INFINITY), ("1e5", 1e5), ("1E5", 1e5), ("1.", 1.0), (".5", 0.5), ("+1", 1.0), ("-0", -0.0), ("0.1", 0.1)];
+    for dt in [&dbl, &flt] {
+        for (lf, v) in f_ok {
+            n += 1;
+            match f64::try_from_term(lit(lf, dt)) { Ok(y) if y.to_bits() == v.to_bits() => {}, r => fail(format!("f64::try_from_term({:?}^^{}) = {:?}, the lexical form denotes {:?}", lf, dt, r, v)) }
+        }
+        n += 1;
+        match f64::try_from_term(lit("NaN", dt)) { Ok(y) if y.is_nan() => {}, r => fail(format!("f64::try_from_term(NaN^^{}) = {:?}", dt, r)) }
+        for lf in ["inf", "infinity", "Infinity", "INFINITY", "nan", "NAN", "Nan", "-inf", "+infinity", "-Infinity", "", "1e", " 1", "1 ", "0x10", "1_0"] {
+            n += 1;
+            if let Ok(y) = f64::try_from_term(lit(lf, dt)) { fail(format!("f64::try_from_term({:?}^^{}) succeeds with {:?} although the form is outside the lexical space", lf, dt, y)); }
+        }
+    }
+    for (lf, v) in [("1.5", 1.5f64), ("-0.25", -0.25), ("+3", 3.0), ("10", 10.0)] {
+        n += 1;
+        match f64::try_from_term(lit(lf, &dec)) { Ok(y) if y == v => {}, r => fail(format!("f64::try_from_term({:?}^^xsd:decimal) = {:?}", lf, r)) }
+    }
+    for lf in ["1e5", "1E0", "INF", "-INF", "NaN", "inf", "nan", ""] {
+        n += 1;
+        if let Ok(y) = f64::try_from_term(lit(lf, &dec)) { fail(format!("f64::try_from_term({:?}^^xsd:decimal) succeeds with {:?} although the form is outside the lexical space of xsd:decimal", lf, y)); }
+    }
+    let i_cases: &[(&str, Option<i128>)] = &[("2147483647", Some(2147483647)), ("2147483648", Some(2147483648)), ("-2147483648", Some(-2147483648)), ("-2147483649", Some(-2147483649)),
+        ("4294967297", Some(4294967297)), ("9223372036854775807", Some(9223372036854775807)), ("9223372036854775808", Some(9223372036854775808)), ("-9223372036854775808", Some(-9223372036854775808)),
+        ("-9223372036854775809", Some(-9223372036854775809)), ("18446744073709551615", Some(18446744073709551615)), ("18446744073709551616", Some(18446744073709551616)), ("-1", Some(-1)), ("+5", Some(5)),
+        ("007", Some(7)), ("-0", Some(0)), ("99999999999999999999999999", Some(99999999999999999999999999)), ("", None), ("5.0", None), ("1e3", None), (" 5", None), ("0x10", None), ("٥", None)];
+    for (lf, v) in i_cases {
+        n += 1;
+        let want32 = v.and_then(|x| i32::try_from(x).ok());
+        let got32 = i32::try_from_term(lit(lf, &int)).ok();
+        if got32.is_some() && got32 != want32 { fail(format!("i32::try_from_term({:?}^^xsd:integer) = {:?}, the lexical form denotes {:?}", lf, got32, v)); }
+        let wanti = v.and_then(|x| isize::try_from(x).ok());
+        let goti = isize::try_from_term(lit(lf, &int)).ok();
+        if goti.is_some() && goti != wanti { fail(format!("isize::try_from_term({:?}^^xsd:integer) = {:?}, the lexical form denotes {:?}", lf, goti, v)); }
+        let wantu = v.and_then(|x| usize::try_from(x).ok());
+        let gotu = usize::try_from_term(lit(lf, &int)).ok();
+        if gotu.is_some() && gotu != wantu { fail(format!("usize::try_from_term({:?}^^xsd:integer) = {:?}, the lexical form denotes {:?}", lf, gotu, v)); }
+    }
     // short lexical forms
     let alpha = [b'0', b'1', b'9', b'+', b'-', b' ', b'a', b'.'];
     for a in alpha { for b in alpha { for len in 0..=2usize {
